@@ -15,46 +15,10 @@ COMMON_ASSUME = [
     'a clean sanitizer run says nothing about paths the workloads did not drive, nor about intra-object overflows',
 ]
 
-# ------------------------------------------------------------------ C19
 
+def load_plans():
+    import importlib, pkgutil
+    from . import plans
+    for m in sorted(pkgutil.iter_modules(plans.__path__), key=lambda m: m.name):
+        importlib.import_module('vf.plans.' + m.name)
 
-def post_c19(prop, tier, seed, res, scratch):
-    """Cross-check the harness's own calendar reference against python3 datetime on the dumped days."""
-    n = bad = 0
-    for p in glob.glob(os.path.join(scratch, '*', 'records.txt')):
-        with open(p) as f:
-            for ln in f:
-                t = ln.split()
-                if len(t) != 6 or t[0] != 'D':
-                    continue
-                day, y, m, d, wd = map(int, t[1:])
-                ref = datetime.date.fromordinal(day + 719163)
-                n += 1
-                if (ref.year, ref.month, ref.day, (ref.weekday() + 1) % 7) != (y, m, d, wd):
-                    bad += 1
-                    if bad <= 3:
-                        res.anoms.append(dict(property=prop, key='%s/c19.days/pyref/splitUTC-vs-python-datetime' % prop, detector='pyref', job='c19.days',
-                                              variant='plain', harness='c19_date', mode='days', seed=seed, idx=0, desc='day %d' % day,
-                                              report='asl %s python %s' % ((y, m, d, wd), ref), how='', cmd=[], batch_from=None))
-    if n == 0:
-        res.errors.append('no records for the python datetime cross-check')
-    return dict(python_datetime_crosscheck_days=n, python_datetime_disagreements=bad)
-
-
-plan('C19',
-     rule='cases are (day, time-of-day) instants, offsets, or generated strings; an instant is non-trivial when it is a distinct calendar day '
-          '(hash = day number), an offset case when the offset differs, a junk string when its bytes differ',
-     jobs=[
-         Job('c19_date', 'days', 'plain', quick=2040, thorough=14266, shards=(16, 16), params=dict(stride=7, blk=256, dump=1), tparams=dict(stride=1)),
-         Job('c19_date', 'days', 'asan', quick=286, thorough=2854, shards=(8, 16), params=dict(stride=50, blk=256), tparams=dict(stride=5), tag='c19.days'),
-         Job('c19_date', 'edges', 'plain', quick=9999, thorough=9999, shards=(8, 8)),
-         Job('c19_date', 'seconds', 'plain', quick=40, thorough=200, shards=(8, 16), params=dict(step=1)),
-         Job('c19_date', 'millis', 'plain', quick=600, thorough=20000, shards=(4, 16)),
-         Job('c19_date', 'offsets', 'asan', quick=2879, thorough=2879, shards=(8, 8)),
-         Job('c19_date', 'offsets', 'plain', quick=2879, thorough=2879, shards=(4, 4)),
-         Job('c19_date', 'junk', 'asan', quick=3000, thorough=120000, shards=(8, 16)),
-     ],
-     post=post_c19,
-     exhaustive={'thorough': True},
-     assumptions=COMMON_ASSUME + ['TZ=UTC is forced so that LOCAL paths are deterministic',
-                                  'strings shorter than 19 bytes are stored inline or in a 20-byte block, where an over-read of up to 3 bytes is invisible to ASan'])
